@@ -10,10 +10,37 @@ use structopt::StructOpt;
 
 use crate::probe::{new_brain, CallInfo, Cand, Decision, Model, Policy, Script, SharedBrain, StepRec};
 
+/// f64 that survives JSON when it is not finite (serde_json writes null for inf / NaN): "inf", "-inf", "nan"
+pub mod f64_any {
+    use serde::{Deserialize, Deserializer, Serializer};
+    pub fn serialize<S: Serializer>(v: &f64, s: S) -> Result<S::Ok, S::Error> {
+        if v.is_finite() {
+            s.serialize_f64(*v)
+        } else if v.is_nan() {
+            s.serialize_str("nan")
+        } else if *v > 0. {
+            s.serialize_str("inf")
+        } else {
+            s.serialize_str("-inf")
+        }
+    }
+    pub fn deserialize<'de, D: Deserializer<'de>>(d: D) -> Result<f64, D::Error> {
+        let v = serde_json::Value::deserialize(d)?;
+        match &v {
+            serde_json::Value::Number(n) => n.as_f64().ok_or_else(|| serde::de::Error::custom("number")),
+            serde_json::Value::String(t) if t == "inf" => Ok(f64::INFINITY),
+            serde_json::Value::String(t) if t == "-inf" => Ok(f64::NEG_INFINITY),
+            serde_json::Value::String(t) if t == "nan" => Ok(f64::NAN),
+            _ => Err(serde::de::Error::custom("expected a number or inf/-inf/nan")),
+        }
+    }
+}
+
 #[derive(Clone, Debug, Serialize, Deserialize, PartialEq)]
 pub struct OptCfg {
     pub steps: u64,
     pub inner: u64,
+    #[serde(with = "f64_any")]
     pub kt_start: f64,
     pub kt_finish: Option<f64>,
     pub kt_ratio: Option<f64>,
